@@ -3,7 +3,7 @@ From Coq Require Import ZArith List Bool.
 From Coq Require String.
 From PS.model Require Import Smt Enc Ind Prog.
 From PS.spec Require Import Spec.
-From PS.proofs Require Import Base SortNoDup C03_contig Cons_proof Res_proof Wf_proof C06_proof Examples Examples4.
+From PS.proofs Require Import Base SortNoDup C03_contig Cons_proof Res_proof Wf_proof C06_proof C05_proof Reach_proof C03_reach Examples Examples4.
 Import ListNotations.
 Open Scope Z_scope.
 
@@ -37,6 +37,19 @@ Theorem C03_contiguous : forall e c ts,
         (forall u, In u others -> teval e (S_ u) <= teval e (S_ t)) \/ (exists u, In u others /\ teval e (S_ u) = teval e (E_ t))).
 Proof. exact contiguous_sound. Qed.
 Print Assumptions C03_contiguous.
+(* the same without premises on the valuation: in a state reached by a program, for every admitted valuation, a mandatory
+   TasksContiguous over scheduled tasks of positive duration gives pairwise disjoint spans and an immediate successor for
+   every task but the one starting last (the named tasks are tasks of the problem -- an invariant of the construction
+   steps -- so C01 supplies the "running" premise) *)
+Theorem C03_contiguous_reachable : forall ops st e c ts,
+  reaches ops st -> sat e (initialize st) ->
+  In c (ps_cons st) -> mandatory_live c = true -> c_expr c = CContiguous ts ->
+  (forall t, In t ts -> positive_duration t = true /\ feval e (act t) = true) ->
+  (forall a b, In (a, b) (pairs_of ts) -> teval e (E_ a) <= teval e (S_ b) \/ teval e (E_ b) <= teval e (S_ a))
+  /\ (forall t others, In (t, others) (with_others [] ts) ->
+        (forall u, In u others -> teval e (S_ u) <= teval e (S_ t)) \/ (exists u, In u others /\ teval e (S_ u) = teval e (E_ t))).
+Proof. exact contiguous_reachable. Qed.
+Print Assumptions C03_contiguous_reachable.
 (* non-vacuity of the contiguity / non-delay / distance / periodic clauses: a program and a valuation on which their premises hold *)
 Theorem C03_contiguity_premises_satisfiable : exists st, reaches ex4_prog st /\ sat ex4_env (initialize st)
   /\ List.length (spec_C03 st ++ spec_C04 st) = 31%nat /\ ex4_live st = 18%nat.
